@@ -6,8 +6,10 @@ class C17(Prop):
     id = 'C17'
     theorems = ['C17.lines_eq_pieces', 'C17.no_break', 'C17.splitlines_no_break',
                 'C17.splitlines_join', 'C17.str_spec', 'C17.roundtrip', 'C17.append_concat',
-                'C17.add_concat', 'C17.trim_spec', 'C17.chunk_spec', 'C17.cond_chunk_spec']
-    proof_modules = ['DznProofs.C17']
+                'C17.add_concat', 'C17.trim_spec', 'C17.chunk_spec', 'C17.cond_chunk_spec',
+                'C17.step_inv', 'C17.new_inv', 'C17.hist_no_break', 'C17.hist_str', 'C17.observation_is_pure',
+                'C17.hist_append', 'C17.hist_trim']
+    proof_modules = ['DznProofs.C17', 'DznProofs.C17Hist']
     level_rule = ('content trees from one PRNG: depth<=5 over str/int/bool/None/list/dict/TextBlock/'
                   'Comment/other objects, strings over an alphabet with every Python line boundary, '
                   'NBSP, tabs, empty and whitespace-only strings; ops tb.new/append/iadd/add/trim/'
@@ -63,6 +65,7 @@ class C17(Prop):
         yield 'tb.ops', ops
         yield 'chunk', chunks
         yield 'py', py
+        yield 'tb.hist', [G.gen_hist(rng) for _ in range(n // 2)]
 
     def impl(self, case):
         return G.run_text_op(case)
